@@ -244,6 +244,15 @@ def _k1_k2(model: Model, rep: Report):
                                      what=f"field '{fname}' is dropped by copy(): the copy silently falls back to the default",
                                      detail=f"dropped:{fname}")
                         elif kind != "value":
+                            # assigned by a helper of the package through setattr with a computed name (a field table): not read -- say so instead of answering
+                            from ..model import FunctionInfo as _FI
+                            for c_ in ast.walk(f.node):
+                                if isinstance(c_, ast.Call) and isinstance(c_.func, ast.Name):
+                                    t_ = model.lookup_symbol(f.module, c_.func.id)
+                                    if isinstance(t_, _FI) and any(isinstance(x_, ast.Call) and isinstance(x_.func, ast.Name) and x_.func.id == "setattr" and len(x_.args) == 3
+                                                                   and not isinstance(x_.args[1], ast.Constant) for x_ in ast.walk(t_.node)):
+                                        raise AnalysisError(f"{construct}: fields outside the constructor are assigned by {t_.qualname} through setattr with a computed name "
+                                                            f"(field table): whether '{fname}' is among them is not read")
                             rep.fail(rule, construct, f.loc, found=f"{fname} (init=False) never assigned on the copy",
                                      required=f"result.{fname} = self.{fname}.copy(lookup) before return",
                                      what=f"the {kind} '{fname}' is not transferred to the copy", detail=f"dropped:{fname}")
